@@ -1,3 +1,4 @@
+import PhreeqcVerif.Gen.StoreTables
 /-!
 Model of the numbered-reactant store of one `Phreeqc` object (C14).
 
@@ -14,8 +15,15 @@ Code modelled (as it is, quirks included):
   `reactions`, `copy_use`, `saver` (which kinds use `Rxn_copies` and which a `Rxn_copy` loop; the x…_save
   early return when the kind took no part), `do_mixes`, `copy_entities` (loop variable `size_t` or `int`: read
   from the source by the check and passed in as `unsignedLoop`); `kinetics.cpp` `set_advection`;
-* `IPhreeqc.cpp` `do_run`: order of the phases of one simulation; pending DELETE / COPY / RUN_CELLS / *_MIX
-  requests survive a stopped run because nothing clears them.
+* `IPhreeqc.cpp` `do_run`: order of the phases of one simulation (`schedule`; proved equal to the call order that
+  tools/gen_store.py reads from do_run and run_simulations); pending DELETE / COPY / RUN_CELLS / *_MIX requests survive
+  a stopped run because nothing clears them;
+* `Parser.cxx` `find_option` (lower-cased prefix, first match) over the option vectors of `StorageBinList`, `runner`
+  and `dumper` as generated from the source (`Gen/StoreTables.lean`): the DELETE / RUN_CELLS option text is resolved
+  inside the model (`resolveDelLine`, `resolveCells`).
+Reserved numbers: the engine itself files entities under −1 (intermediate results of `set_and_run`/mixing), −2
+(`copy_use(-2)`, every batch reaction) and −2−(cells·(1+stag)+2) = −5 for the default TRANSPORT settings (`run_reactions`
+with kinetics), −6 (inverse modelling); user entities under these numbers are overwritten by calculations.
 
 The content of an entity is an opaque token (`Nat`): every definition and every calculation produces a fresh
 token, copies carry the token of their source. The chemistry is outside the model.
@@ -226,7 +234,7 @@ def rangeList (lo hi : Int) : List Int := (List.range (hi - lo + 1).toNat).map f
 inductive NumTok where
   | one (a : Int)
   | two (a b : Int)
-deriving Repr
+deriving Repr, DecidableEq
 
 /-- `StorageBinListItem::Augment(std::string)`: the two numbers go through a `std::set`, so `5-3` means 3…5 -/
 def BinItem.augTok (it : BinItem) : NumTok → BinItem
@@ -243,7 +251,35 @@ inductive DelLine where
   | item (k : Kind) (toks : List NumTok)
   | all
   | cell (toks : List NumTok)
-deriving Repr
+deriving Repr, DecidableEq
+
+/-- `CParser::find_option(token, &n, vopts, false)`: the first option of which the (lower-case) token is a prefix -/
+def resolveOpt (vopts : List String) (tok : String) : Option Nat :=
+  vopts.findIdx? (fun v => tok.toList.isPrefixOf v.toList)
+
+def kindOfName : String → Option Kind
+  | "solution" => some .solution | "pp" => some .pp | "exchange" => some .exchange | "surface" => some .surface
+  | "ss" => some .ss | "gas" => some .gas | "kinetics" => some .kinetics | "mix" => some .mix
+  | "reaction" => some .reaction | "temperature" => some .temperature | "pressure" => some .pressure
+  | _ => none
+
+/-- one option line of a DELETE block as written (`-name numbers…`), resolved through the option vector and the
+    `switch (opt)` of `StorageBinList::Read` as generated from the source; `none` = "Unknown input" -/
+def resolveDelLine (name : String) (toks : List NumTok) : Option DelLine :=
+  match resolveOpt Gen.StoreTables.binVopts name with
+  | none => none
+  | some i =>
+    match Gen.StoreTables.binCases[i]? with
+    | none => none
+    | some "all" => some .all
+    | some "cell" => some (.cell toks)
+    | some c => (kindOfName c).map fun k => .item k toks
+
+/-- `-cells` of RUN_CELLS through `runner::vopts` -/
+def resolveCells (name : String) : Bool :=
+  match resolveOpt Gen.StoreTables.runnerVopts name with
+  | some i => Gen.StoreTables.runnerCellCases.contains i
+  | none => false
 
 inductive Block where
   | define (k : Kind) (n m : Int) (id : Nat) (equil : Option Int) (refs : List Int)
@@ -465,9 +501,6 @@ def initialEquil (k : Kind) (chain : Bool) (resetNewDef : Bool) (s : St) : St :=
       else s
     | none => s) s
 
-def initialAll (s : St) : St :=
-  initialEquil .gas true true (initialEquil .surface true false (initialEquil .exchange false true (initialSolutions s)))
-
 /-! ### reactions, saver, RUN_CELLS -/
 
 def reactantKinds : List Kind := [.pp, .reaction, .mix, .exchange, .kinetics, .surface, .temperature, .pressure, .gas, .ss]
@@ -599,13 +632,52 @@ def deleteEntities (s : St) : St :=
     else s) s
   { s with del := .const ⟨false, []⟩ }
 
+/-- the calls of one simulation in `IPhreeqc::do_run` / `Phreeqc::run_simulations` -/
+inductive Phase where
+  | readInput | tidyModel | initialSolutions | initialExchangers | initialSurfaces | initialGasPhases | reactions
+  | inverseModels | advection | transport | runAsCells | doMixes | copyEntities | dump | deleteEntities
+deriving DecidableEq, Repr
+
+def Phase.call : Phase → String
+  | .readInput => "read_input" | .tidyModel => "tidy_model" | .initialSolutions => "initial_solutions"
+  | .initialExchangers => "initial_exchangers" | .initialSurfaces => "initial_surfaces"
+  | .initialGasPhases => "initial_gas_phases" | .reactions => "reactions" | .inverseModels => "inverse_models"
+  | .advection => "advection" | .transport => "transport" | .runAsCells => "run_as_cells" | .doMixes => "do_mixes"
+  | .copyEntities => "copy_entities" | .dump => "dump" | .deleteEntities => "delete_entities"
+
+/-- the order in which the model runs them (theorem `schedule_is_do_run`: it is the order in the source) -/
+def schedule : List Phase :=
+  [.readInput, .tidyModel, .initialSolutions, .initialExchangers, .initialSurfaces, .initialGasPhases, .reactions,
+   .inverseModels, .advection, .transport, .runAsCells, .doMixes, .copyEntities, .dump, .deleteEntities]
+
+/-- INVERSE_MODELING, ADVECTION and TRANSPORT are never part of a generated history (their calls return at once);
+    `dump` reads only -/
+def runPhase (blocks : List Block) (s : St) : Phase → St
+  | .readInput => readInput s blocks
+  | .tidyModel => tidyModel s
+  | .initialSolutions => initialSolutions s
+  | .initialExchangers => initialEquil .exchange false true s
+  | .initialSurfaces => initialEquil .surface true false s
+  | .initialGasPhases => initialEquil .gas true true s
+  | .reactions => reactions s
+  | .inverseModels | .advection | .transport | .dump => s
+  | .runAsCells => runAsCells s
+  | .doMixes => doMixes s
+  | .copyEntities => copyEntities s
+  | .deleteEntities => deleteEntities s
+
+def runPhases (blocks : List Block) (s : St) (ps : List Phase) : St := ps.foldl (runPhase blocks) s
+
 /-- one simulation up to the point where DUMP is written -/
 def simToDump (s : St) (blocks : List Block) : St :=
-  let s := readInput { s with simNo := s.simNo + 1 } blocks
-  copyEntities (doMixes (runAsCells (reactions (initialAll (tidyModel s)))))
+  runPhases blocks { s with simNo := s.simNo + 1 } (schedule.takeWhile (· != .dump))
+
+/-- … and the rest of it -/
+def simAfterDump (s : St) (blocks : List Block) : St :=
+  runPhases blocks s (schedule.dropWhile (· != .dump))
 
 def runSim (s : St) (blocks : List Block) : St :=
-  if s.stopped.isSome then s else deleteEntities (simToDump s blocks)
+  if s.stopped.isSome then s else simAfterDump (simToDump s blocks) blocks
 
 /-- one `RunString` call: simulations until one stops -/
 def runCall (s : St) (sims : List (List Block)) : St :=
